@@ -1,5 +1,5 @@
 SHARDING = {"dir": "adder/sharding", "pkgname": "sharding"}
-FILES = ["adder_sharding/c13_rig_test.go", "adder_sharding/c13_synth_test.go", "adder_sharding/c13_files_test.go"]
+FILES = ["adder_sharding/c13_rig_test.go", "adder_sharding/c13_synth_test.go", "adder_sharding/c13_files_test.go", "adder_sharding/c13_shape_test.go"]
 
 SPEC = {
     "go": [
@@ -9,6 +9,8 @@ SPEC = {
              timeout_quick=600, timeout_thorough=3000),
         dict(SHARDING, files=FILES, test="TestVerifC13Files", n_quick=60, n_thorough=3000, shards_quick=4, shards_thorough=12,
              timeout_quick=600, timeout_thorough=3000),
+        dict(SHARDING, files=FILES, test="TestVerifC13Shape", n_quick=160, n_thorough=6000, shards_quick=4, shards_thorough=12,
+             timeout_quick=600, timeout_thorough=3000),
     ],
     "tags": {1: "unixfs-balanced-first-leaf-error-swallowed"},
     "rule": "synthetic importer streams (1..30 raw / dag-pb nodes, duplicates, links to earlier nodes, sizes around the shard limit: "
@@ -16,28 +18,57 @@ SPEC = {
             "MaxLinks and 2*MaxLinks) x allocation scripts (1..4 lists of 1..5 peers, errors, empty lists) x replication factors "
             "(-1, 0, 1..3) x put faults at any (round, destination) of daemon / gorpc-server / gorpc-client class (sparse and dense) x pin "
             "faults, through the real sharding and single DAG services and BlockAdder; every case is compared exactly with the model. "
-            "non-trivial = at least 2 distinct blocks and the run reached a pin or failed on a put; distinct = distinct canonical JSON input",
+            "non-trivial = at least 2 distinct blocks and the run reached a pin or failed on a put; distinct = distinct canonical JSON input. "
+            "TestVerifC13Shape: single files (sizes 0, 1, k-1, k, k+1, around a full node / tree / trickle layer for links-per-block 2..5 and "
+            "the shipped 174, multiples, random; zeros = shared sub-DAGs) x size-k chunkers x balanced / trickle x raw-leaves x CID v0/v1 "
+            "x single / sharding service through the real Adder: the DAG the importer built, block by block in the order of DAGService.Add, "
+            "is compared with the Coq model of the importer; non-trivial there = the DAG has an internal node",
     "codes": {1: "model_eq_impl (C13 trace of BlockAllocate / BlockPut rounds / Pin calls and result)",
               10: "delivered_equals_produced", 11: "shards_partition", 12: "shard_under_limit", 13: "shard_depth_covers",
               14: "final_pins", 15: "failure_no_root_pin",
               20: "content: delivered blocks not closed under links from the root", 21: "content: a file does not read back byte for byte",
               22: "content: root differs between sharded and unsharded add", 23: "content: root differs from go-unixfs' importer",
-              24: "content: result / error differs between sharded and unsharded add"},
+              24: "content: result / error differs between sharded and unsharded add",
+              30: "importer shape: a link of an observed block goes to a block not handed to the DAG service before, or the last block is not the root",
+              31: "importer shape: the observed leaves in order are not the file, or an internal node carries data",
+              32: "importer shape: fan-out (balanced: 1..maxlinks children, leaves at one depth; trickle: leaf layer then layers of at most 4 sub-trees)",
+              33: "importer shape: a recorded size (UnixFS blocksize / Filesize) is not the number of file bytes below the link / the root",
+              34: "importer shape: number of UnixFS blocksizes differs from the number of links",
+              35: "importer shape: the single-file add failed or the root is not in the stream",
+              36: "importer shape: the add of a single file did not return within 30 s (the layout does not terminate)"},
     "trusted": ["harness/adder_sharding/c13_rig_test.go: recording Cluster.BlockAllocate / Cluster.Pin / IPFSConnector.BlockPut services "
                 "behind a local gorpc server; call destination and MultiCall identity read from *rpc.Call through a server stats handler",
                 "sha2-256 collision freedom and injectivity of the CBOR link-map encoding (cluster-built nodes are modelled by their link list)",
-                "go-unixfs importer, chunkers, go-merkledag, go-ipld-cbor (the importer is an input of the model)"],
+                "go-unixfs importer for directories / HAMT / MFS, the rabin and buzhash chunkers, go-merkledag (dag-pb), the UnixFS protobuf encoding, "
+                "go-ipld-cbor, SHA-256 and the other hash functions (for these the importer is an input of the model; the size chunker and the "
+                "balanced / trickle layouts for one file are modelled, proved and compared block by block with the real importer)",
+                "harness/adder_sharding/c13_shape_test.go: decoding of the observed blocks with go-merkledag / go-unixfs (links, UnixFS blocksizes, Data); "
+                "helpers.DefaultLinksPerBlock lowered through the package variable the real ipfsadd reads"],
     "level_text": "Theorems (Props/C13.v, all closed) over the Gallina transcription of BlockAdder.Add/AddMany, the single DAG service, and the "
                   "sharding DAG service (ingestBlock, flushCurrentShard, shard.Flush, makeDAG, Finalize) for every importer stream, root, "
                   "shard limit, MaxLinks > 0, allocation script, put-outcome script and pin-outcome script; the transcription is compared "
                   "event by event with the real services on generated streams at every run and the implementation's own trace is checked "
                   "against the boolean form of each clause (codes 10..15); each of these monitors is proved sound (delivered_/partition_/under_limit_/"
                   "depth_/final_pins_/failure_monitor_sound: an accepted trace satisfies the Prop-level clause) and complete for the model "
-                  "(model_passes_monitors: for every strict input the model's own result and trace, sharded, unsharded or aborted, pass all six)",
-    "level_note": "partial: the importer (chunkers, layouts, UnixFS, dag-pb, SHA-256) is an input of the model; closure of the delivered "
-                  "blocks, byte-for-byte read-back and root equality (sharded = unsharded = go-unixfs importer) are differential tests on "
-                  "generated file trees, not proofs. Model tied to code by differential testing (generator-bounded)",
-    "assumptions": ["the importer stream is link-closed and contains the root (go-unixfs importer contract; checked on every real-tree case)",
+                  "(model_passes_monitors: for every strict input the model's own result and trace, sharded, unsharded or aborted, pass all six). "
+                  "For ONE file the importer itself is modelled as written (go-ipfs-chunker size splitter, go-unixfs DagBuilderHelper, balanced.Layout / "
+                  "fillNodeRec, trickle.Layout / fillTrickleRec) and proved for every byte string, chunk size k > 0 and links-per-block >= 2 (balanced; "
+                  "1 for trickle; with 1 balanced.Layout provably never ends): the layouts terminate, concat of the chunks = the file, the leaves are "
+                  "the chunks in order, read_back = the file, every link records the bytes below it (so a seeking reader is correct: importer_seek), "
+                  "balanced fan-out 1..maxlinks at uniform depth, the trickle layer structure (tshape; fan-out <= maxlinks + 4 (maxDepth - 1)), blocks are handed to DAGService.Add children first and the root last; this stream "
+                  "meets the importer contract of the adder theorems, giving single_file_delivered_closed_and_readable(_sharded): after a successful add "
+                  "exactly the importer's root is pinned, every block reachable from it was put, and a reader over the blocks that were put returns "
+                  "exactly the input bytes. The importer model is compared block by block with the DAG the real importer builds (TestVerifC13Shape, code 1) "
+                  "and the observed DAG is checked against the boolean clauses (codes 30..33; closed_/shape_/trickle_monitors_sound, balanced_/trickle_passes_monitors)",
+    "level_note": "partial: for directories (incl. HAMT sharding, MFS), for the rabin / buzhash chunkers, and for the encodings (dag-pb, UnixFS protobuf, "
+                  "raw leaves, CID versions, SHA-256 and the other hashes: in the model a block is its content and the hash any collision-free function) "
+                  "the importer stays an input of the model; closure of the delivered blocks, byte-for-byte read-back and root equality (sharded = "
+                  "unsharded = go-unixfs importer) are there differential tests on generated file trees, not proofs. "
+                  "Model tied to code by differential testing (generator-bounded)",
+    "assumptions": ["the importer stream is link-closed and contains the root (go-unixfs importer contract; proved for one file with a size-k chunker, "
+                    "checked on every real-tree case otherwise)",
+                    "no CID collision among the blocks of one DAG (injective_on); chunk size k > 0 (chunker.FromString rejects size-0) and "
+                    "k <= 1 MiB (BlockSizeLimit, ChunkSizeLimit: not modelled); links-per-block >= 2 (shipped: 174)",
                     "BlockAllocate returns a non-nil list (the real RPC does)",
                     "MaxLinks > 0"],
 }
